@@ -13,34 +13,37 @@ package inspect
 // of the analysis: KNOWN FINDING (clause haskey).
 //@ func PipelineStepOutputs
 //@   property C02
+//@   option prelude=opt
 //@   option load=gripql,jsonpath,util/protoutil
 //@   modifies MapD.Str MapV.Str.Slice MapV.Str.Str MapN SH.Str alloc
 //@   requires elems: forall j :: 0 <= j && j < len(stmts) ==> stmts[j] != nil
 //@   axiom wireWrapStmt: forall s:*gripql.GraphStatement :: s != nil && isAPtr(s.Statement) ==> ref(s.Statement) != 0
 //@   loop 1 invariant bound: i >= -1 && i < len(stmts)
 //@   loop 1 invariant outnn: out != nil
-//@   loop 1 invariant stepslen: len(steps) == len(stmts)
+//@   loop 1 invariant stepslen: len(steps) == len(stmts) && soff(steps) == 0 && (forall j :: 0 <= j && j < len(steps) ==> steps[j] == stepname(sref(stmts), soff(stmts), j))
 //@   loop 1 invariant nonempty: forall s:Str :: has(out, s) ==> len(out[s]) >= 1 && soff(out[s]) == 0 && sref(out[s]) < alloc && sref(out[s]) >= 0
 //@   loop 1 invariant has: forall j :: i < j && j < len(stmts) && dyn(stmts[j].Statement, "*gripql.GraphStatement_Has") ==>
-//@       has(out, steps[j]) && !(len(out[steps[j]]) == 1 && out[steps[j]][0] == "_label")
+//@       has(out, stepname(sref(stmts), soff(stmts), j)) && !(len(out[stepname(sref(stmts), soff(stmts), j)]) == 1 && out[stepname(sref(stmts), soff(stmts), j)][0] == "_label")
 //@   loop 2 invariant has: forall j :: i < j && j < len(stmts) && dyn(stmts[j].Statement, "*gripql.GraphStatement_Has") ==>
-//@       has(out, steps[j]) && !(len(out[steps[j]]) == 1 && out[steps[j]][0] == "_label")
+//@       has(out, stepname(sref(stmts), soff(stmts), j)) && !(len(out[stepname(sref(stmts), soff(stmts), j)]) == 1 && out[stepname(sref(stmts), soff(stmts), j)][0] == "_label")
 //@   loop 2 invariant nonempty: forall s:Str :: has(out, s) ==> len(out[s]) >= 1 && soff(out[s]) == 0 && sref(out[s]) < alloc && sref(out[s]) >= 0
 //@   loop 2 invariant outnn: out != nil && i >= 0 && i < len(stmts) && len(steps) == len(stmts)
 //@   loop 3 invariant has: forall j :: i < j && j < len(stmts) && dyn(stmts[j].Statement, "*gripql.GraphStatement_Has") ==>
-//@       has(out, steps[j]) && !(len(out[steps[j]]) == 1 && out[steps[j]][0] == "_label")
+//@       has(out, stepname(sref(stmts), soff(stmts), j)) && !(len(out[stepname(sref(stmts), soff(stmts), j)]) == 1 && out[stepname(sref(stmts), soff(stmts), j)][0] == "_label")
 //@   loop 3 invariant nonempty: forall s:Str :: has(out, s) ==> len(out[s]) >= 1 && soff(out[s]) == 0 && sref(out[s]) < alloc && sref(out[s]) >= 0
 //@   loop 3 invariant outnn: out != nil && i >= 0 && i < len(stmts) && len(steps) == len(stmts)
 //@   ensures has: forall j :: 0 <= j && j < len(stmts) && dyn(stmts[j].Statement, "*gripql.GraphStatement_Has") ==>
-//@       has(result, steps[j]) && !(len(result[steps[j]]) == 1 && result[steps[j]][0] == "_label")
+//@       has(result, stepname(sref(stmts), soff(stmts), j)) && !(len(result[stepname(sref(stmts), soff(stmts), j)]) == 1 && result[stepname(sref(stmts), soff(stmts), j)][0] == "_label")
 //@   ensures haskey: forall j :: 0 <= j && j < len(stmts) && dyn(stmts[j].Statement, "*gripql.GraphStatement_HasKey") ==>
-//@       has(result, steps[j]) && !(len(result[steps[j]]) == 1 && result[steps[j]][0] == "_label")
+//@       has(result, stepname(sref(stmts), soff(stmts), j)) && !(len(result[stepname(sref(stmts), soff(stmts), j)]) == 1 && result[stepname(sref(stmts), soff(stmts), j)][0] == "_label")
 
 // PipelineSteps labels every statement with a step id (one per statement).
 //@ func PipelineSteps
 //@   property C02
+//@   option prelude=opt
 //@   option load=gripql
 //@   pure
+//@   function named: soff(result) == 0 && (forall j :: 0 <= j && j < len(result) ==> result[j] == stepname(sref(stmts), soff(stmts), j))
 //@   requires elems: forall j :: 0 <= j && j < len(stmts) ==> stmts[j] != nil
 //@   loop 1 invariant len: len(out) == rangeindex + 1 && rangeindex < len(stmts) && soff(out) == 0
 //@   ensures len: len(result) == len(stmts)
